@@ -564,24 +564,21 @@ Proof.
     destruct (MapTree.usage_is (e_usage e) "N" || MapTree.usage_is (e_usage e) "S").
     { left. eexists; eexists; split; reflexivity. }
     destruct (MapTree.usage_is (e_usage e) "R").
-    { destruct (negb (e_seq e =? 1)%Z || match pc with None => true | Some (pu, _) => MapTree.usage_is pu "R" end);
-      left; eexists; eexists; split; reflexivity. }
+    { left; eexists; eexists; split; reflexivity. }
     right; right. exists []. reflexivity.
   - (* Some [v] *)
     destruct v as [|a x].
     + destruct (MapTree.usage_is (e_usage e) "N" || MapTree.usage_is (e_usage e) "S").
       { left. eexists; eexists; split; reflexivity. }
       destruct (MapTree.usage_is (e_usage e) "R").
-      { destruct (negb (e_seq e =? 1)%Z || match pc with None => true | Some (pu, _) => MapTree.usage_is pu "R" end);
-        left; eexists; eexists; split; reflexivity. }
+      { left; eexists; eexists; split; reflexivity. }
       right; right. exists []. reflexivity.
     + right; right. exists (a :: x). reflexivity.
   - left. eexists; eexists; split; reflexivity.
   - destruct (MapTree.usage_is (e_usage e) "N" || MapTree.usage_is (e_usage e) "S").
     { left. eexists; eexists; split; reflexivity. }
     destruct (MapTree.usage_is (e_usage e) "R").
-    { destruct (negb (e_seq e =? 1)%Z || match pc with None => true | Some (pu, _) => MapTree.usage_is pu "R" end);
-      left; eexists; eexists; split; reflexivity. }
+    { left; eexists; eexists; split; reflexivity. }
     right; left. eexists; reflexivity.
 Qed.
 
